@@ -237,6 +237,8 @@ def queries_for(pid):
                 ('name from R0 limit 1', sub(1), False),
                 ('name, size from R0 order by size desc, name limit 2', lambda v, k: _rows(sorted(v, key=lambda i: (-S[i], N[i].encode()))[:2], [name, size]), True),
                 ("name, 'x' from R0", lambda v, k: [[N[i], 'x'] for i in v], False),
+                # LIMIT on group rows without ORDER BY: any one row of the unlimited grouped result, aggregated over ALL its members
+                ('size, count(*) from R0 group by size limit 1', lambda v, k: (lambda got: len(got) == min(1, len(v)) and all(g in [[str(s_), str(len([i for i in v if S[i] == s_]))] for s_ in {S[i] for i in v}] for g in got)), False),
                 ('size, count(*) from R0 group by size order by size limit 1', lambda v, k: [[str(min(S[i] for i in v)), str(len([i for i in v if S[i] == min(S[j] for j in v)]))]], True)]
     if pid == 'C08':
         def grp(keyf):
@@ -251,7 +253,13 @@ def queries_for(pid):
             for i in v:
                 d[S[i]] = d.get(S[i], 0) + 1
             return [[str(c)] for c in d.values()]
+        def counts_by_size_desc(v, k):
+            d = {}
+            for i in v:
+                d[S[i]] = d.get(S[i], 0) + 1
+            return [[str(d[s_])] for s_ in sorted(d, reverse=True)]
         return [('size, count(*), sum(size) from R0 group by size', grp(size), False),
+                ('count(*) from R0 group by size order by size desc', counts_by_size_desc, True),       # an ordering key need not be selected
                 ('count(*) from R0 group by size', counts_only, False),
                 ('length(name), count(*), sum(size) from R0 group by length(name)', grp(lambda i: len(N[i])), False),
                 ('size, count(*), sum(size) from R0 group by size order by sum(size) desc, size', lambda v, k: sorted(grp(size)(v, k), key=lambda r: (-int(r[2]), int(r[0]))), True)]
